@@ -12,7 +12,7 @@
    multiplication): rn with any positive weighting, uniform_discr, product
    spaces are instances (Instances.v, Lists.v). *)
 From Coq Require Import Reals List Bool.
-From Verif Require Import Base.Num C09.Model C09.IPS C09.Proofs C09.Instances.
+From Verif Require Import Base.Num Base.Vec C09.Model C09.IPS C09.Proofs C09.Instances C09.Lists C09.Pointwise.
 Local Open Scope R_scope.
 
 (* T1 (gradient rules, all trees).  For every expression tree, of any depth and
@@ -130,6 +130,43 @@ Theorem argument_scaling_value_repaired : forall (S : RSpace) (e : Rexpr S),
   value (f_mul_scalar (mkVariants true) e s) x = value e (sscal S s x).
 Proof. exact f_mul_scalar_repaired. Qed.
 Print Assumptions argument_scaling_value_repaired.
+
+(* T1 (the spaces of the correspondence are instances).  Lists of length n with
+   one positive weight per entry -- rn with no/constant/array weighting,
+   uniform_discr (cell volume), flattened power/product spaces -- satisfy the
+   laws, and every operation of that space IS the operation of
+   [wspace sqrt w] that the shards execute (at Q), applied to the underlying
+   lists.  So all theorems above hold on the modelled ODL spaces. *)
+Theorem weighted_lists_satisfy_laws : forall (n : nat) (w : Vn n),
+  Forall (fun a => 0 < a) (vl w) -> SpaceLaws (lspace n w).
+Proof. exact lspace_laws. Qed.
+Print Assumptions weighted_lists_satisfy_laws.
+Theorem list_space_is_the_executed_space : forall (n : nat) (w : Vn n),
+  (forall x y, vl (sadd (lspace n w) x y) = sadd (wspace sqrt (vl w)) (vl x) (vl y)) /\
+  (forall a x, vl (sscal (lspace n w) a x) = sscal (wspace sqrt (vl w)) a (vl x)) /\
+  (forall x y, vl (smul (lspace n w) x y) = smul (wspace sqrt (vl w)) (vl x) (vl y)) /\
+  (forall x y, sinner (lspace n w) x y = sinner (wspace sqrt (vl w)) (vl x) (vl y)) /\
+  (forall x, snorm (lspace n w) x = snorm (wspace sqrt (vl w)) (vl x)) /\
+  vl (szero (lspace n w)) = szero (wspace sqrt (vl w)).
+Proof. exact lspace_is_wspace. Qed.
+
+(* T1/T2 (coordinate-wise leaves on weighted lists; value and gradient are the
+   functions of Model.leaf_l1 / leaf_huber applied to the underlying list).
+   L1Norm: gradient sign(x) wherever no entry of x is zero.
+   Huber(gamma > 0): differentiable everywhere, and grad_lipschitz = 1/gamma
+   is a valid bound in the weighted norm. *)
+Theorem l1norm_sound_on_lists : forall (n : nat) (w : Vn n), Forall (fun a => 0 < a) (vl w) ->
+  forall x : Vn n, Forall (fun a => a <> 0) (vl x) -> leaf_sound (sleaf_l1 n w) x.
+Proof. exact sleaf_l1_sound. Qed.
+Theorem huber_sound_on_lists : forall (n : nat) (w : Vn n), Forall (fun a => 0 < a) (vl w) ->
+  forall (g : R) (x : Vn n), 0 < g -> leaf_sound (sleaf_huber n w g) x.
+Proof. exact sleaf_huber_sound. Qed.
+Theorem huber_lipschitz_on_lists : forall (n : nat) (w : Vn n), Forall (fun a => 0 < a) (vl w) ->
+  forall g : R, 0 < g -> forall c, lf_lip (sleaf_huber n w g) = LFin c ->
+  forall x y, norm (lspace n w) (ssub (lf_grad (sleaf_huber n w g) x) (lf_grad (sleaf_huber n w g) y))
+              <= c * norm (lspace n w) (ssub x y).
+Proof. exact sleaf_huber_lip. Qed.
+Print Assumptions huber_lipschitz_on_lists.
 
 (* Non-vacuity: rn(1, weighting=w) satisfies the laws for every w > 0, and a
    tree using all eleven constructors satisfies every premise at every point. *)
